@@ -36,6 +36,12 @@ func (i *Instr) UnmarshalJSON(b []byte) error {
 	switch i.Kind {
 	case "leaf":
 		return json.Unmarshal(parts[1], &i.Tracked)
+	case "grad":
+		var r []any
+		if err := json.Unmarshal(parts[1], &r); err != nil {
+			return err
+		}
+		i.Slot = [2]any{r[0], r[1]}
 	case "op", "cmp":
 		var raw [][]any
 		if err := json.Unmarshal(parts[1], &raw); err != nil {
@@ -74,7 +80,7 @@ type Menu struct {
 }
 
 type Shared struct {
-	S     [4]tensor.Tensor
+	S     [5]tensor.Tensor
 	Layer *layers.FC // a layer object shared by all goroutines
 	Soft  *activations.Softmax
 }
@@ -142,7 +148,12 @@ func NewShared() *Shared {
 	s3, _ := s2.Sub(s2.Scale(0.5))
 	// the fourth one is the result of a COMPARISON, equally untouched
 	s4, _ := s2.Gt(s2.Scale(2))
-	return &Shared{S: [4]tensor.Tensor{s1, s2, s3, s4}, Layer: fc, Soft: soft}
+	// the fifth one is a tracked leaf with fan-out 2 that has been back-propagated already; nobody has read its gradient yet
+	s5, _ := bind.New(baseDims(), v2, true)
+	if y, err := s5.Mul(s5); err == nil {
+		tensor.BackPropagate(y)
+	}
+	return &Shared{S: [5]tensor.Tensor{s1, s2, s3, s4, s5}, Layer: fc, Soft: soft}
 }
 
 func resolve(sh *Shared, local []tensor.Tensor, slot [2]any) tensor.Tensor {
@@ -163,6 +174,12 @@ func Step(sh *Shared, local []tensor.Tensor, in Instr) (tensor.Tensor, error) {
 		return bind.New([]int{2, 2}, []float64{1, 0, 2, 1}, in.Tracked)
 	case "rand":
 		return tensor.RandU(baseDims(), 0, 1, nil)
+	case "grad":
+		g := resolve(sh, local, in.Slot).Gradient()
+		if g == nil {
+			return nil, fmt.Errorf("the tensor has no gradient")
+		}
+		return g.Scale(2), nil
 	case "cmp":
 		return resolve(sh, local, in.Slots[0]).Gt(resolve(sh, local, in.Slots[1]))
 	case "op":
